@@ -133,6 +133,25 @@ func (env *specEnv) eval(x *Expr) (Val, error) {
 		}
 		return env.withState(env.old).eval(x.Args[0])
 	case "unop":
+		if x.Name == "&" {
+			// &local: the address of a local variable of the function (a reference when the variable lives on the heap,
+			// a local descriptor otherwise)
+			if x.Args[0].Op == "ident" && env.a != nil {
+				var al *ssa.Alloc
+				if env.body {
+					al = env.a.allocNamed(x.Args[0].Name, env.at)
+				}
+				if al == nil {
+					al = env.a.allocNamed(x.Args[0].Name, nil)
+				}
+				if al != nil {
+					if pv, ok := env.a.vals[al]; ok {
+						return pv, nil
+					}
+				}
+			}
+			return Val{}, fmt.Errorf("& needs a local variable of the function: %s", x.Args[0])
+		}
 		v, err := env.eval(x.Args[0])
 		if err != nil {
 			return Val{}, err
@@ -953,6 +972,16 @@ func (env *specEnv) call(x *Expr) (Val, error) {
 		}
 		r := vs[0].T[0]
 		return boolVal(or(eq(r, intLit(0)), app(SBool, ">=", r, e.cur.topAct.entry.alloc))), nil
+	case "samearr":
+		// samearr(s1, s2): the two slices share their backing array (same array and offset)
+		vs, err := evalArgs()
+		if err != nil {
+			return Val{}, err
+		}
+		if len(vs) != 2 || len(vs[0].T) != 4 || len(vs[1].T) != 4 {
+			return Val{}, fmt.Errorf("samearr takes two slices")
+		}
+		return boolVal(and(eq(vs[0].T[0], vs[1].T[0]), eq(vs[0].T[1], vs[1].T[1]))), nil
 	case "noalias":
 		// noalias(p1, ..., pn): the non-nil references among the arguments are pairwise different
 		vs, err := evalArgs()
@@ -1445,6 +1474,60 @@ func (env *specEnv) readsHeaps(pat string) []string {
 		return out
 	}
 	return e.heapsMatching(pat)
+}
+
+// ghostSetParts resolves `g(x)` of a ghostset clause: the ghost family, its sort, and the key term of x in env.
+func (env *specEnv) ghostSetParts(gs *GhostSet) (name string, srt Sort, key Term, err error) {
+	e := env.e
+	x := gs.Target.E
+	if x.Op != "call" || x.Args[0].Op != "ident" || len(x.Args) != 2 {
+		return "", "", Term{}, fmt.Errorf("ghostset target must be g(x)")
+	}
+	sf, ok := e.specFuncs[x.Args[0].Name]
+	if !ok || !sf.Ghost {
+		return "", "", Term{}, fmt.Errorf("ghostset: %s is not a ghost", x.Args[0].Name)
+	}
+	v, err := env.eval(x.Args[1])
+	if err != nil {
+		return "", "", Term{}, err
+	}
+	k, ok := ghostKey(v)
+	if !ok {
+		return "", "", Term{}, fmt.Errorf("ghostset target needs a reference")
+	}
+	rt, err := env.parseType(sf.Ret)
+	if err != nil {
+		return "", "", Term{}, err
+	}
+	ls := e.layout(rt)
+	if len(ls) != 1 {
+		return "", "", Term{}, fmt.Errorf("ghost %s: result must be scalar", sf.Name)
+	}
+	return "G_" + sf.Name, arrSort(SInt, ls[0].Sort), k, nil
+}
+
+// applyGhostSets performs the ghost updates of fs on st (the exit state of the body under verification); env reads the
+// exit state, with old(...) = entry.
+func (env *specEnv) applyGhostSets(fs *FuncSpec, st *State) {
+	e := env.e
+	for _, gs := range fs.GhostSets {
+		name, srt, key, err := env.ghostSetParts(gs)
+		if err != nil {
+			env.a.specError(gs.Target, err)
+			continue
+		}
+		v, err := env.eval(gs.Val.E)
+		if err != nil || len(v.T) != 1 {
+			if err == nil {
+				err = fmt.Errorf("ghostset value must be scalar")
+			}
+			env.a.specError(gs.Val, err)
+			continue
+		}
+		e.cur.heapSorts[name] = srt
+		h := e.heapGet(st, name, srt)
+		e.heapSet(st, name, store(h, key, v.T[0]))
+	}
 }
 
 // ghostKey: the reference a ghost is attached to: pointer/map ref, slice backing array, interface payload.
